@@ -610,7 +610,7 @@ func (o *ovsdbClient) echo(args []interface{}, reply *[]interface{}) error {
 func (o *ovsdbClient) update(params []json.RawMessage, reply *[]interface{}) error {
 	cookie := MonitorCookie{}
 	*reply = []interface{}{}
-	if len(params) > 2 {
+	if len(params) != 2 {
 		return fmt.Errorf("update requires exactly 2 args")
 	}
 	err := json.Unmarshal(params[0], &cookie)
@@ -655,7 +655,7 @@ func (o *ovsdbClient) update(params []json.RawMessage, reply *[]interface{}) err
 func (o *ovsdbClient) update2(params []json.RawMessage, reply *[]interface{}) error {
 	cookie := MonitorCookie{}
 	*reply = []interface{}{}
-	if len(params) > 2 {
+	if len(params) != 2 {
 		return fmt.Errorf("update2 requires exactly 2 args")
 	}
 	err := json.Unmarshal(params[0], &cookie)
@@ -696,7 +696,7 @@ func (o *ovsdbClient) update2(params []json.RawMessage, reply *[]interface{}) er
 func (o *ovsdbClient) update3(params []json.RawMessage, reply *[]interface{}) error {
 	cookie := MonitorCookie{}
 	*reply = []interface{}{}
-	if len(params) > 3 {
+	if len(params) != 3 {
 		return fmt.Errorf("update requires exactly 3 args")
 	}
 	err := json.Unmarshal(params[0], &cookie)
@@ -734,8 +734,9 @@ func (o *ovsdbClient) update3(params []json.RawMessage, reply *[]interface{}) er
 
 	if err == nil {
 		db.monitorsMutex.Lock()
-		mon := db.monitors[cookie.ID]
-		mon.LastTransactionID = lastTransactionID
+		if mon := db.monitors[cookie.ID]; mon != nil {
+			mon.LastTransactionID = lastTransactionID
+		}
 		db.monitorsMutex.Unlock()
 	}
 
